@@ -48,3 +48,4 @@ Definition obs_N (cf : cfg) (dl : list N) (mode : nat) (t0 : N) (d : fid) (rc0 :
    N.of_nat (length (filter (fun fr => negb (fstate_eqb (fs (snd fr)) FCompleted)) (fibers s))); now s].
 
 Arguments obs_N cf dl%list_scope mode%nat_scope t0%N_scope d%nat_scope rc0%nat_scope inj0%N_scope fuel%nat_scope p%list_scope.
+Arguments start mode%nat_scope t0%N_scope d%nat_scope p%list_scope rc0%nat_scope inj0%N_scope.
